@@ -6,6 +6,7 @@ CONSTANTS
   GuardControl = TRUE
   SafeDecode = TRUE
   GuardEndpoint = FALSE
+  RelayClientChecked = TRUE
   NoSigpipe = TRUE
   MaxHist = 4
 INVARIANTS C35_NoThrow
